@@ -12,7 +12,9 @@ namespace Inspector
 def AssignCfg.fixed : AssignCfg := { strAppendsOld := false, nilSrcPanics := false }
 
 /-- The tree as it is. -/
-def AssignCfg.repo : AssignCfg := {}
+def AssignCfg.repo : AssignCfg := { strAppendsOld := GenCfg.repo.strAppendsOld, nilSrcPanics := GenCfg.repo.assignNilSrcPanics }
+/-- The library as it was at the pinned commit, before `fix: AssignToStr without a buffer …`. -/
+def AssignCfg.original : AssignCfg := { strAppendsOld := true, nilSrcPanics := true }
 
 /-- The chain's outcome is the one the table names. -/
 def convAgrees : ConvR → AssignR → Bool
